@@ -108,6 +108,9 @@ def step (_ : Unit) (ts : List String) : Unit × String :=
       match i0.toInt?, nth.toNat?, lo.toInt?, hi.toInt? with
       | some a, some b, some c, some d => pfRow a b c d
       | _, _, _, _ => "bad-op"
+    | ["pfx", a, b, nth] => match a.toInt?, b.toInt?, nth.toNat? with
+      | some a, some b, some n => pfOne a b n
+      | _, _, _ => "bad-op"
     | ["thr", kind, n, _] => thr kind (n.toNat?.getD 0)
     | ["sem", ops] => sem ops
     | ["semc", p, _, k] => s!"ok got={(p.toNat?.getD 0) * (k.toNat?.getD 0)} value=0"
